@@ -32,6 +32,7 @@ def run_prim(chk, replay=None):
     have_model = gate is not None and core.os.path.exists(core.RUNNER)
     urt, usk = gen_cases(rng, n)
     failing, mism, dist = [], [], {}
+    compared = oracled = 0
     def bump(k): dist[k] = dist.get(k, 0) + 1
     # checked encodings (implementation) of the same value sequences / single values
     chk_lines = ["rt binary contig - %s" % c.split(" ", 4)[4] for c in urt]
@@ -83,8 +84,13 @@ def run_prim(chk, replay=None):
                         why = o[o.index("ORACLE-FAIL"):]
             if why:
                 failing.append((c, "%s [%s build]" % (why, prof), o))
-            if mo is not None and c09.strip_impl(o).replace(" GUARD-BROKEN", "") != re.sub(r"panic \w+", "panic", mo[i]):
-                mism.append(("urt", c, o, mo[i]))
+            oracled += 1
+            if mo is not None and i < len(mo) and c09.answered(o) and c09.answered(mo[i]):
+                compared += 1
+                if c09.strip_impl(o).replace(" GUARD-BROKEN", "") != re.sub(r"panic \w+", "panic", mo[i]):
+                    mism.append(("urt", c, o, mo[i]))
+            elif mo is not None and (i >= len(mo) or c09.answered(o) != c09.answered(mo[i])):
+                mism.append(("urt", c, o, mo[i] if i < len(mo) else ""))
         # enveloped messages: write_message_begin + value (+ several messages on one protocol object) through the unchecked
         # codec must give the bytes and the read-back of the checked binary codec
         mrt_u = [c for c in c01.gen_msg_cases(random.Random(chk.seed + 11), max(90, n // 12)) if c.split(" ")[1] == "unsafe"]
@@ -99,8 +105,13 @@ def run_prim(chk, replay=None):
                 why = "unchecked codec differs from the checked binary codec on an enveloped message sequence"
             if why:
                 failing.append((c, "%s [%s build]" % (why, prof), o))
-            if mo2 is not None and o != re.sub(r"panic \w+", "panic", mo2[i]):
-                mism.append(("mrt", c, o, mo2[i]))
+            oracled += 1
+            if mo2 is not None and i < len(mo2) and c09.answered(o) and c09.answered(mo2[i]):
+                compared += 1
+                if o != re.sub(r"panic \w+", "panic", mo2[i]):
+                    mism.append(("mrt", c, o, mo2[i]))
+            elif mo2 is not None and (i >= len(mo2) or c09.answered(o) != c09.answered(mo2[i])):
+                mism.append(("mrt", c, o, mo2[i] if i < len(mo2) else ""))
         # iterative skipper
         enc = dict(zip(enc_lines, core.run_lines(b, enc_lines)))
         sk_lines, sk_meta = [], []
@@ -134,8 +145,13 @@ def run_prim(chk, replay=None):
                     why = "skip + following value consumed %d bytes too many" % (trail - int(r[jr + 1]))
             if why:
                 failing.append((c, "%s [%s build]" % (why, prof), o))
-            if smo is not None and o != re.sub(r"panic \w+", "panic", smo[i]):
-                mism.append(("usk", c, o, smo[i]))
+            oracled += 1
+            if smo is not None and i < len(smo) and c09.answered(o) and c09.answered(smo[i]):
+                compared += 1
+                if o != re.sub(r"panic \w+", "panic", smo[i]):
+                    mism.append(("usk", c, o, smo[i]))
+            elif smo is not None and (i >= len(smo) or c09.answered(o) != c09.answered(smo[i])):
+                mism.append(("usk", c, o, smo[i] if i < len(smo) else ""))
     chk.cov["rule"] = ("urt: value sequences (fixed list incl. payloads on both sides of the 4096-byte zero-copy threshold + generated trees) x "
                        "{pre-sized BytesMut, LinkedBytes spare capacity zero-copy off/on} x slack {0,1,7,64} x trailing bytes: unchecked output == "
                        "checked binary output, size == bytes, guard bytes after every allocation intact, unchecked decode == checked decode, cursor "
@@ -143,7 +159,8 @@ def run_prim(chk, replay=None):
                        "encoded length, following value intact. mrt unsafe: 1-3 enveloped messages on one unchecked writer / reader == "
                        "the checked binary codec on the same sequence. non-trivial = containers; distinct by SHA-1")
     chk.sample(urt[0][:300]); chk.sample(urt[len(urt) // 2][:300])
-    chk.cov["disagreements_checked"] = (len(urt) + len(usk)) * len(bins)
+    chk.cov["disagreements_checked"] = compared
+    chk.cov["oracle_checked"] = oracled
     chk.cov["model_impl_mismatches"] = len(mism)
     chk.cov["distribution"] = dist
     for c, why, o in failing[:3]:
